@@ -15,6 +15,9 @@ func verifCmd(id int) *exec.Cmd {
 }
 
 func vstub_os_exec_Cmd_Run(c *exec.Cmd) error {
+	if c.Path == "/bin/cat" {
+		return vcmdCat(c)
+	}
 	a := c.Args[len(c.Args)-1]
 	_, err := c.Stdout.Write([]byte{a[len(a)-1]})
 	return err
